@@ -134,6 +134,34 @@ impl RealState {
                         Ok(t) => t,
                         Err(_) => return ("err".into(), None),
                     },
+                    "grown" => {
+                        // API build, then regroup random sibling pairs and resolve polytomies: internal nodes end up
+                        // with LARGER arena ids than their descendants
+                        let mut tree = build_api(&t);
+                        let rounds = rng.range(1, 4);
+                        for _ in 0..rounds {
+                            let slots = slots_of(&tree);
+                            let parents: Vec<usize> = (0..slots.len()).filter(|&i| !slots[i].deleted && slots[i].children.len() >= 2).collect();
+                            if parents.is_empty() {
+                                break;
+                            }
+                            let p = *rng.pick(&parents);
+                            let ch = slots[p].children.clone();
+                            let a = rng.below(ch.len());
+                            let mut b = rng.below(ch.len());
+                            if a == b {
+                                b = (a + 1) % ch.len();
+                            }
+                            let l = |rng: &mut Rng| if rng.chance(1, 4) { None } else { Some(gen_len(rng, LenKind::Dyadic)) };
+                            let (e1, e2, pe) = (l(&mut rng), l(&mut rng), l(&mut rng));
+                            let _ = tree.merge_children(&ch[a], &ch[b], e1, e2, pe, None);
+                        }
+                        if rng.chance(1, 2) {
+                            phylotree::verif::set_seed(seed);
+                            let _ = tree.resolve();
+                        }
+                        tree
+                    }
                     "merge2" => {
                         // two parentless nodes merged under a fresh root: the root is NOT slot 0
                         if t.kids.len() != 2 {
@@ -204,6 +232,19 @@ impl RealState {
                     _ => return bad,
                 };
                 (ans, None)
+            }
+            ["real.reset_cache"] => {
+                self.tree.reset_bipartition_cache();
+                ("ok".into(), Some("nop".into()))
+            }
+            ["sp.live", "parts"] => (crate::sp::real_parts(&self.tree), Some("sp\tparts".into())),
+            ["battery", q] => {
+                // C04 oracle replay: the query on the edited tree and on a fresh parse of its Newick text
+                let a = crate::c04::battery(&self.tree, &[]);
+                let fresh = self.tree.to_newick().ok().and_then(|t| Tree::from_newick(&t).ok());
+                let b = fresh.map(|f| crate::c04::battery(&f, &[])).unwrap_or_default();
+                let pick = |v: &Vec<(String, String)>| v.iter().find(|(k, _)| k == q).map(|x| x.1.clone()).unwrap_or_default();
+                (format!("edited: {} || fresh: {}", pick(&a), pick(&b)), Some("nop".into()))
             }
             ["real.parse", hx] => {
                 let Some(text) = unhex(hx) else { return bad };
